@@ -60,6 +60,9 @@ def tables(rnd):
         ("empty-before", "12:4:rw:M|16:8:rw:M", 16, None),
         ("empty-mid", "10:4:rw:M|14:2:rw:CRW|16:8:rw:M", 16, 10),
         ("empty-both", "12:4:rw:M|16:8:rw:M|24:6:rw:M", 16, None),
+        # write-only storage: what a block READ would deliver there (zeroes) is not what validation must overlay
+        ("wo-main", "16:8:w:M", 16, None),
+        ("wo-cb", "16:8:w:CRW|24:4:rw:M", 16, 24),
     ]
     for an, aline, base, other in areasets:
         for rn, rf in regsets:
@@ -89,7 +92,7 @@ def cases(tier, seed):
     cs = []
     tabs = tables(rnd)
     if tier == "quick":
-        tabs = rnd.sample(tabs, 60)
+        tabs = rnd.sample(tabs, 70)
     for name, tline, lo, hi in tabs:
         ops = [tline, "rt.init"]
         pairs = [(a, n) for a in range(lo, hi + 1) for n in range(0, 9)]
